@@ -29,6 +29,8 @@ ASSUMPTIONS = [
     "max_solutions: exactly min(k, #covers) covers are returned; FEASIBLE required when #covers > k, OPTIMAL when "
     "#covers < k, either accepted when #covers == k (the search cannot know)",
     "L2 anomalies (non-LIFO uncover, uncover not the inverse of cover) are events, not violations (DESIGN section 3)",
+    "stratum too-deep (covers selecting more rows than the recursion limit allows): RecursionError is accepted as 'no answer' - the "
+    "recursive search has that implementation limit today - a returned answer is judged like any other",
 ]
 QUICK_SCALE = 2.5  # quick-tier multiplier (idle 16-core timing: ~10 s at scale 1)
 STRATA = [
@@ -38,6 +40,7 @@ STRATA = [
     ("structured", 240, 1600),
     ("limits", 1800, 16000),
     ("scale", 4, 30),
+    ("too-deep", 2, 12),
     ("exh-small", 1, 1),
     ("exh-3x3", 1, 1),
     ("exh-2x4", 1, 1),
@@ -253,6 +256,10 @@ def _gen_structured(rng, tier):
 
 
 def gen(stratum, rng, tier):
+    if stratum == "too-deep":
+        # a cover that selects more rows than the interpreter allows nested calls: the recursive search cannot finish
+        # (RecursionError is accepted here as "no answer") - but whatever it does hand back is judged
+        return {"kind": "too-deep", "n": rng.randint(1150, 1400), "full_first": rng.random() < 0.5}
     if stratum == "scale":
         # hundreds of items that each have a row of their own (a cover selects hundreds of rows: search depth = number
         # of rows selected) plus two rows covering a pair each, so that exactly four covers exist
@@ -653,7 +660,42 @@ def _run_scale(case, obs):
     obs.mode("exact")
 
 
+def _run_too_deep(case, obs):
+    from vf.common import call, is_crash
+
+    n = case["n"]
+    rows = [[1 if i == j else 0 for j in range(n)] for i in range(n)]
+    full = [1] * n
+    rows = [full] + rows if case["full_first"] else rows + [full]
+    fi = 0 if case["full_first"] else n
+    covers = {frozenset([fi]), frozenset(i for i in range(n + 1) if i != fi)}
+    obs.nontrivial = True
+    obs.mode("exact")
+    for fa in (False, True):
+        what = f"solve_exact_cover[too-deep,{'all' if fa else 'first'}]"
+        r = call(obs, _dlx.solve_exact_cover, [list(x) for x in rows], find_all=fa, budget=400_000_000, what=what,
+                 expect=(RecursionError,))
+        if is_crash(r):
+            obs.event("xc.too-deep.recursion-error")
+            continue
+        obs.event("xc.too-deep.answered")
+        st = r.status
+        if st == _St.INFEASIBLE or r.solution is None:
+            obs.violate("dlx.wrong-infeasible", f"[{what}] {n} unit rows + one full row: status {st.name}, two covers exist")
+        elif not fa:
+            if frozenset(r.solution) not in covers:
+                obs.violate("dlx.invalid-cover", f"[{what}] {len(r.solution)} rows selected: not one of the two covers")
+        else:
+            got = {frozenset(x) for x in r.solution} if isinstance(r.solution, list) else None
+            if got is None or not got <= covers:
+                obs.violate("dlx.invalid-cover", f"[{what}] returned selections are not covers")
+            elif st == _St.OPTIMAL and got != covers:
+                obs.violate("dlx.all.incomplete", f"[{what}] OPTIMAL with {len(got)} of the 2 covers listed")
+
+
 def run(case, obs):
+    if case["kind"] == "too-deep":
+        return _run_too_deep(case, obs)
     if case["kind"] == "scale":
         return _run_scale(case, obs)
     if case["kind"] == "exh":
